@@ -4,9 +4,52 @@ import Isotp.PyAgree.MiscTimer
 import Isotp.PyAgree.Pdu
 import Isotp.Layer
 /-!
-  The RECEIVE state machine of `TransportLayerLogic` (isotp/protocol.py): `_process_rx`, `_check_timeouts_rx` and the helpers they
-  call, as dumped in `Isotp/Py/Src.lean`, against the model `State.processRx` / `State.checkTimeoutsRx` (`Isotp/Layer.lean`).
+  The RECEIVE state machine of `TransportLayerLogic` (isotp/protocol.py): `_process_rx`, `_check_timeouts_rx` and the seven helpers
+  they call, as dumped in `Isotp/Py/Src.lean`, against the model `State.processRx` / `State.checkTimeoutsRx` / `State.stopReceiving`
+  / `State.requestFc` / `State.startRxCfTimer` / `State.startReception` (`Isotp/Layer.lean`).
+
+  Main statements (section "Main theorems", after `namespace Rx`):
+  * `process_rx_agrees (s) (m) (hinv : RxBufOk s)`: running `Src.TransportLayerLogic_p_process_rx` with the callees `rxMeths s m` from
+    `rxEnvIn s m` returns `[immediate_tx_required, frame_received]` of `s.processRx m`, in an environment that has every attribute of
+    `rxAttrs (mailboxObj s m) (s.processRx m).1` (receive-side attributes, `#errors`, `#delivered`, `#rx_queue`, the mailbox).
+    `process_rx_agrees'` is the same under the exact condition `sliceOk s m`; `process_rx_history`, `process_rx_mailbox` (no
+    hypothesis at all for a Flow Control) are corollaries.  `Rx.process_rx_run` is the statement from ANY environment that
+    represents `s` (`Rx.Rep`, `Rx.Consts`, `Rx.PduCtx`).
+  * the ONLY hypothesis: `RxBufOk s` (in WAIT_CF, `len(rx_buffer) <= rx_frame_length`; = first half of the proved invariant
+    `Isotp.RxJust`, Proofs/Safe.lean).  Without it an in-sequence Consecutive Frame makes the source evaluate
+    `pdu.data[:bytes_to_receive]` with a NEGATIVE bound, which the interpreter does not model (Python: drop from the end; model:
+    take nothing): `process_rx_negative_slice`, `negative_slice_witness`.
+  * `check_timeouts_rx_agrees` (every state, no hypothesis), `check_timeouts_rx_run`.
+  * the helpers, each from any environment that represents `s`: `rx_empty_rx_buffer_agrees`, `rx_stop_sending_flow_control_agrees`,
+    `rx_start_rx_cf_timer_agrees`, `rx_append_rx_data_agrees`, `rx_request_tx_flowcontrol_agrees`, `rx_stop_receiving_agrees`,
+    `rx_start_reception_agrees` (state and Boolean result).  The `Meths.proc` entries the callers use are explicit environment
+    transformers (`emptyBufEnv`, `stopFcEnv`, `startCfEnv`, `extendProc`, `reqFcProc`, `stopRecvEnv`, `startRecProc`); the lemmas
+    `Rx.*_src` state that each entry IS what running the helper's own dumped source does (exact equality of environments, up to
+    the callee's parameter name for the two helpers that take an argument), and `Rx.Rep.*` that it is the model function.
+  * the primitive entries against the sources they stand for: `pdu_entry_link` + `pduView_fields` (`PDU.__init__`, Pdu.lean),
+    `is_timed_out_link`, `timer_entries_link` (`Timer`, MiscTimer.lean).
+
+  Conventions.
+  * `rxEnv s` binds the flat dotted keys listed in `coreAttrs` / `pfsAttrs` / `fcAttrs`.  `self.pending_flowcontrol_status` is NOT
+    bound while the model has `none` (the attribute does not exist before the first request).  The mailbox holds `None` or an
+    object: `fc` initially (fields `fc.flow_status` ...), the received `pdu` after a Flow Control (`mailboxObj`).
+  * history keys: `#errors` = classes handed to `_trigger_error`, oldest first (`errsOf s.log`); `#delivered` = payloads handed to
+    `rx_queue.put`, oldest first (`deliveredOf s.log`), and `#rx_queue` = the queue itself (`s.rxQueue`), both encoded by
+    `encodePayloads` (length, then bytes; `encodePayloads_append`, `encodePayloads_injective`).
+  * the decoded frame: `pdu.*` is bound to exactly the attributes `fieldsOf d` (Pdu.lean) that `PDU.__init__` sets for this frame
+    type; the ones left at their default are NOT bound, so the theorem also shows `_process_rx` never reads them.
+  * `_start_rx_cf_timer` does `Timer(timeout=float(ms)/1000)` then `start()`: float arithmetic is outside the subset, so
+    `Timer#timeout` only yields the object (its argument IS evaluated: `float` of the integer parameter, `/ 1000`) and `start()`
+    installs `start_time := now` and `timeout := s.cfg.tCf`, the nanosecond value the harness hands to the model (DESIGN 3.1).
+    No hypothesis `s.timerCf.timeout = s.cfg.tCf` is needed.
+
+  Proof structure: `_process_rx` is cut along its statements (`Rx.st0` .. `Rx.st7`, `Rx.idleBlk`, `Rx.waitBlk`, `Rx.cfW`, `Rx.cfOk`,
+  ... with `*_shape` lemmas by `rfl` on the generated text); generic stepping lemmas on ABSTRACT blocks (`Rx.exec_ite`,
+  `Rx.block_next`, `Rx.block_ret`, `Rx.dispatch3_run`) so that `simp` never looks into a branch that is not taken; one lemma per
+  branch of the state machine (`Rx.sm_*`); `Rx.tail_run` / `Rx.head_run` / `Rx.finish` for the common parts.
 -/
+set_option linter.unusedSimpArgs false
+
 namespace Isotp.PyAgree
 open Isotp Isotp.Py
 
@@ -42,6 +85,39 @@ theorem encodePayloads_append (l : List Bytes) (p : Bytes) :
 
 theorem encodePayloads_single (p : Bytes) : encodePayloads [p] = encodePayload p := by
   simp [encodePayloads]
+
+theorem encodePayloads_cons (p : Bytes) (l : List Bytes) : encodePayloads (p :: l) = encodePayload p ++ encodePayloads l := by
+  simp [encodePayloads]
+
+/-- the encoding of the delivered payloads as one list of scalars loses nothing -/
+theorem encodePayloads_injective : ∀ l l' : List Bytes, encodePayloads l = encodePayloads l' → l = l'
+  | [], [] => fun _ => rfl
+  | [], p' :: r' => fun h => by simp [encodePayload, encodePayloads] at h
+  | p :: r, [] => fun h => by simp [encodePayload, encodePayloads] at h
+  | p :: r, p' :: r' => fun h => by
+    rw [encodePayloads_cons, encodePayloads_cons] at h
+    simp only [encodePayload, List.cons_append, List.cons.injEq, Sc.py.injEq, PyVal.int.injEq] at h
+    obtain ⟨hlen, hrest⟩ := h
+    have hlen' : p.length = p'.length := by omega
+    have hl : (p.map (fun b => Sc.py (.int b.toNat))).length = (p'.map (fun b => Sc.py (.int b.toNat))).length := by
+      simp [hlen']
+    obtain ⟨h1, h2⟩ := List.append_inj hrest hl
+    have hp : p = p' := by
+      have hinj : ∀ a b : UInt8, Sc.py (.int a.toNat) = Sc.py (.int b.toNat) → a = b := by
+        intro a b hab
+        simp only [Sc.py.injEq, PyVal.int.injEq] at hab
+        exact UInt8.toNat_inj.mp (by omega)
+      clear hrest hl hlen hlen' h2
+      induction p generalizing p' with
+      | nil => cases p' <;> simp_all
+      | cons a t ih =>
+        cases p' with
+        | nil => simp at h1
+        | cons b t' =>
+          simp only [List.map_cons, List.cons.injEq] at h1
+          rw [hinj a b h1.1, ih t' h1.2]
+    rw [hp, encodePayloads_injective r r' h2]
+
 
 /-- the value of the mailbox attribute: `None`, or the PDU object `obj` -/
 def mbVal (obj : String) : Option FcFrame → PV
@@ -1264,6 +1340,736 @@ theorem sm_cf_wait_changing (hR : Rep s env) (hC : Consts env) (hP : PduCtx d en
 
 end cfwait
 
+
+section head
+variable {s : State} {env : Env} (m : CanMsg)
+local notation "Mm" => rxMethsOf (State.now s) (Cfg.tCf (State.cfg s)) (Half.rxPrefixSize (Addr.rx (State.addr s))) (CanMsg.data m)
+
+theorem pduFn_eq (data : Bytes) (v : PV) (start : Nat) :
+    pduFn data [v, pint start] = match decode data start with
+      | some _ => .ok (.meth "pdu")
+      | none => .error (.exc .ValueError) := by
+  have h : ¬ (start : Int) < 0 := by omega
+  simp only [pduFn, h, if_false, Int.toNat_natCast]
+  try (cases decode data start <;> rfl)
+
+theorem st0_shape : st0 =
+    .tryExcept (.cons (.assign "pdu" (.call "PDU#start_of_data" (.cons (.var "msg")
+        (.cons (.call "self.address.get_rx_prefix_size" .nil) .nil)))) .nil)
+      (.cons (.assign "e" (.call "__caught__" .nil))
+      (.cons (.expr (.call "self._trigger_error" (.cons (.call "isotp.errors.InvalidCanDataError"
+          (.cons (.call "__format__" (.cons (.call "str" (.cons (.var "e") .nil)) .nil)) .nil)) .nil)))
+      (.cons (.expr (.call "self._stop_receiving" .nil))
+      (.cons (.ret (.call "self.ProcessRxReport#immediate_tx_required#frame_received" (.cons .ff (.cons .ff .nil)))) .nil)))) := rfl
+
+/-- statement 0 when `PDU(...)` raises: `InvalidCanDataError`, reception aborted, report `(False, False)` -/
+theorem st0_reject (hR : Rep s env) (hmsg : env "msg" = some (.meth "msg"))
+    (hdec : rxDecoded s m = none) :
+    ∃ env', execStmt Mm env st0 = .ok (.returned (.list [.py (.bool false), .py (.bool false)]) env') ∧
+      Rep ((s.error .InvalidCanData).stopReceiving) env' := by
+  unfold rxDecoded at hdec
+  rw [st0_shape]
+  rx_eval [hmsg, pduFn_eq, hdec]
+  exact ⟨_, rfl, ((hR.setLocal "e" _ (by decide)).trig .InvalidCanData).stopRecv⟩
+
+/-- statement 0 when `PDU(...)` succeeds: `pdu` is bound -/
+theorem st0_accept (hmsg : env "msg" = some (.meth "msg")) (d : Decoded) (hdec : rxDecoded s m = some d) :
+    execStmt Mm env st0 = .ok (.next (env.set "pdu" (.meth "pdu"))) := by
+  unfold rxDecoded at hdec
+  rw [st0_shape]
+  rx_eval [hmsg, pduFn_eq, hdec]
+
+
+variable {d : Decoded}
+
+theorem st1_shape : st1 =
+    .ite (.cmp .eq (.var "pdu.type") (.var "PDU.Type.FLOW_CONTROL"))
+      (.cons (.assign "self.last_flow_control_frame" (.var "pdu"))
+      (.cons (.ret (.call "self.ProcessRxReport#immediate_tx_required#frame_received" (.cons .tt (.cons .ff .nil)))) .nil)) .nil := rfl
+
+/-- statement 1 on a Flow Control: it goes to the mailbox, report `(True, False)` -/
+theorem st1_fc (M : Meths) (hrep : ∀ args e, M.fn "self.ProcessRxReport#immediate_tx_required#frame_received" args e = reportFn args)
+    (hC : Consts env) (hP : PduCtx d env) (hpdu : env "pdu" = some (.meth "pdu"))
+    (st bs stm : Nat) (hd : d.pdu = .fc st bs stm) :
+    execStmt M env st1 = .ok (.returned (.list [.py (.bool true), .py (.bool false)])
+      (env.set "self.last_flow_control_frame" (.meth "pdu"))) := by
+  have ht : env "pdu.type" = some (pint 3) := by rw [hP.type, hd]; rfl
+  rw [st1_shape]
+  simp (disch := decide) only [execBlock, execStmt, eval, evalArgs, ok_bind, ht, hC.t3, evalCmp_eq, pvEq_pint, Int.reduceBEq,
+    truthy_pbool, ite_tt, hpdu, evalBuiltin_none, hrep, reportFn_bools, set_apply, String.reduceEq, ↓reduceIte]
+
+/-- statement 1 on any other frame: nothing -/
+theorem st1_other (M : Meths) (hC : Consts env) (hP : PduCtx d env) (hk : typeCode d.pdu ≠ 3) :
+    execStmt M env st1 = .ok (.next env) := by
+  have hc : eval M env (.cmp .eq (.var "pdu.type") (.var "PDU.Type.FLOW_CONTROL")) = .ok (pbool false) := by
+    simp only [eval, hP.type, hC.t3, ok_bind, evalCmp_eq, pvEq_pint]
+    congr 2
+    rw [beq_eq_false_iff_ne]; omega
+  rw [st1_shape, exec_ite M env _ _ _ _ hc]
+  rfl
+
+
+theorem st3_shape : st3 =
+    .ite (.cmp .eq (.var "pdu.type") (.var "PDU.Type.SINGLE_FRAME"))
+      (.cons (.ite (.and_ (.cmp .gt (.var "pdu.can_dl") (.int (8))) (.cmp .eq (.var "pdu.escape_sequence") .ff))
+        (.cons (.expr (.call "self._trigger_error" (.cons (.call "isotp.errors.MissingEscapeSequenceError" (.cons (.strLit "For SingleFrames conveyed on a CAN message with data length (CAN_DL) > 8, length should be encoded on byte #1 and byte #0 should be 0x00") .nil)) .nil)))
+        (.cons (.ret (.call "self.ProcessRxReport#immediate_tx_required#frame_received" (.cons .ff (.cons .ff .nil)))) .nil)) .nil)
+      .nil) .nil := rfl
+
+/-- statement 3 on a Single Frame: `MissingEscapeSequenceError` when CAN_DL > 8 without the escape sequence -/
+theorem st3_sf (now tCf start : Nat) (data : Bytes) (hC : Consts env) (hP : PduCtx d env)
+    (len : Nat) (dat : Bytes) (esc : Bool) (hd : d.pdu = .sf len dat esc) :
+    execStmt (rxMethsOf now tCf start data) env st3 =
+      if (decide (d.canDl > 8) && !esc) = true then
+        .ok (.returned (.list [.py (.bool false), .py (.bool false)]) (trigEnv "MissingEscapeSequenceError" env))
+      else .ok (.next env) := by
+  have ht : env "pdu.type" = some (pint 0) := by rw [hP.type, hd]; rfl
+  have hesc : env "pdu.escape_sequence" = some (pbool esc) := by rw [hP.esc, hd]; rfl
+  rw [st3_shape]
+  by_cases hcd : d.canDl > 8
+  · have hcd' : decide ((8 : Int) < (d.canDl : Int)) = true := by simp only [decide_eq_true_eq]; omega
+    have hbf : (true == false) = false := rfl
+    cases esc
+    · rx_eval [ht, hC.t0, hP.canDl, hesc, Int.reduceBEq, cmp_gt_pint, hcd', hcd, decide_true, Bool.not_false, Bool.and_self,
+        BEq.rfl]
+      rfl
+    · rx_eval [ht, hC.t0, hP.canDl, hesc, Int.reduceBEq, cmp_gt_pint, hcd', hcd, decide_true, Bool.not_true, Bool.and_false,
+        Bool.false_eq_true, Bool.true_eq_false, hbf]
+      try rfl
+  · have hcd' : decide ((8 : Int) < (d.canDl : Int)) = false := by simp only [decide_eq_false_iff_not]; omega
+    rx_eval [ht, hC.t0, hP.canDl, hesc, Int.reduceBEq, cmp_gt_pint, hcd', hcd, decide_false, Bool.false_and, Bool.false_eq_true]
+    try rfl
+
+/-- statement 3 on a First / Consecutive Frame: nothing -/
+theorem st3_other (M : Meths) (hC : Consts env) (hP : PduCtx d env) (hk : typeCode d.pdu ≠ 0) :
+    execStmt M env st3 = .ok (.next env) := by
+  have hc : eval M env (.cmp .eq (.var "pdu.type") (.var "PDU.Type.SINGLE_FRAME")) = .ok (pbool false) := by
+    simp only [eval, hP.type, hC.t0, ok_bind, evalCmp_eq, pvEq_pint]
+    congr 2
+    rw [beq_eq_false_iff_ne]; omega
+  rw [st3_shape, exec_ite M env _ _ _ _ hc]
+  rfl
+
+
+/-- the environment in which the state machine starts -/
+def headEnv (env : Env) : Env :=
+  ((env.set "pdu" (.meth "pdu")).set "frame_complete" (pbool false)).set "immediate_tx_msg_required" (pbool false)
+
+theorem rep_head (hR : Rep s env) : Rep s (headEnv env) := by unfold headEnv; rep_tac hR
+theorem consts_head (hC : Consts env) : Consts (headEnv env) := by unfold headEnv; consts_tac hC
+theorem pduCtx_head (hP : PduCtx d env) : PduCtx d (headEnv env) := by unfold headEnv; pdu_tac hP
+theorem headEnv_lookups (env : Env) :
+    headEnv env "pdu" = some (.meth "pdu") ∧ headEnv env "frame_complete" = some (pbool false) ∧
+    headEnv env "immediate_tx_msg_required" = some (pbool false) := by
+  unfold headEnv; refine ⟨?_, ?_, ?_⟩ <;> loc_tac
+
+def e1 (env : Env) : Env := env.set "pdu" (.meth "pdu")
+def e2 (env : Env) : Env := (e1 env).set "frame_complete" (pbool false)
+
+theorem consts_e2 (hC : Consts env) : Consts (e2 env) := by unfold e2 e1; consts_tac hC
+theorem pduCtx_e2 (hP : PduCtx d env) : PduCtx d (e2 env) := by unfold e2 e1; pdu_tac hP
+theorem consts_e1 (hC : Consts env) : Consts (e1 env) := by unfold e1; consts_tac hC
+theorem pduCtx_e1 (hP : PduCtx d env) : PduCtx d (e1 env) := by unfold e1; pdu_tac hP
+
+/-- statements 0-4 on a frame that is not a Flow Control and passes the escape-sequence check -/
+theorem head_run (hC : Consts env) (hP : PduCtx d env) (hmsg : env "msg" = some (.meth "msg"))
+    (hdec : rxDecoded s m = some d) (hk : typeCode d.pdu ≠ 3) (h3 : execStmt Mm (e2 env) st3 = .ok (.next (e2 env))) :
+    execBlock Mm env body = execBlock Mm (headEnv env) (.cons st5 (.cons st6 (.cons st7 .nil))) := by
+  have h0 : execStmt Mm env st0 = .ok (.next (e1 env)) := st0_accept m hmsg d hdec
+  rw [body_shape, block_next _ _ _ _ _ h0,
+    block_next _ _ _ _ _ (st1_other _ (consts_e1 hC) (pduCtx_e1 hP) hk)]
+  have h2 : execStmt Mm (e1 env) st2 = .ok (.next (e2 env)) := rfl
+  rw [block_next _ _ _ _ _ h2, block_next _ _ _ _ _ h3]
+  have h4 : execStmt Mm (e2 env) st4 = .ok (.next (headEnv env)) := rfl
+  rw [block_next _ _ _ _ _ h4]
+
+/-- from the state machine to the report -/
+theorem finish {E : Env} {s1 : State} {fc itx : Bool} (hsm : SmOut Mm E s1 fc itx)
+    (pre : execBlock Mm env body = execBlock Mm E (.cons st5 (.cons st6 (.cons st7 .nil)))) :
+    ∃ env', execBlock Mm env body = .ok (.returned (.list [.py (.bool (itx || s1.pendingFc)), .py (.bool fc)]) env') ∧
+      Rep s1 env' := by
+  obtain ⟨E', h5, hR', hfc, hitx⟩ := hsm
+  rw [pre, block_next _ _ _ _ _ h5]
+  exact tail_run _ _ _ _ hR' hfc hitx
+
+
+theorem Rep.attrs (h : Rep s env) : ∀ kv ∈ rxAttrs "fc" s, env kv.1 = some kv.2 := by
+  intro kv hkv
+  simp only [rxAttrs, coreAttrs, List.mem_append, List.mem_cons, List.not_mem_nil, or_false] at hkv
+  rcases hkv with (hkv | hkv) | hkv
+  · rcases hkv with rfl | rfl | rfl | rfl | rfl | rfl | rfl | rfl | rfl | rfl | rfl | rfl | rfl | rfl | rfl
+    · exact h.rxState
+    · exact h.rxFrameLen
+    · exact h.lastSeq
+    · exact h.rxBlockCnt
+    · exact h.actualRxdl
+    · exact h.rxBuf
+    · exact h.pendingFc
+    · exact h.tStart
+    · exact h.tTimeout
+    · exact h.blocksize
+    · exact h.maxFrameSize
+    · exact h.cfTimeout
+    · exact h.errors
+    · exact h.delivered
+    · exact h.rxQueue
+  · cases hp : s.pendingFcStatus with
+    | none => simp [pfsAttrs, hp] at hkv
+    | some n =>
+      simp only [pfsAttrs, hp, List.mem_cons, List.not_mem_nil, or_false] at hkv
+      subst hkv; rw [h.pfs, hp]; rfl
+  · cases hf : s.lastFc with
+    | none =>
+      simp only [fcAttrs, hf, List.mem_cons, List.not_mem_nil, or_false] at hkv
+      subst hkv; rw [h.mb, hf]; rfl
+    | some f =>
+      simp only [fcAttrs, hf, List.mem_cons, List.not_mem_nil, or_false, String.reduceAppend] at hkv
+      rcases hkv with rfl | rfl | rfl | rfl
+      · rw [h.mb, hf]; rfl
+      · exact h.fcS f hf
+      · exact h.fcB f hf
+      · exact h.fcM f hf
+
+/-- a received Flow Control: the object with `pdu` in the mailbox -/
+theorem fc_attrs (hR : Rep s env) (hP : PduCtx d env) (st bs stm : Nat) (hd : d.pdu = .fc st bs stm) :
+    ∀ kv ∈ rxAttrs "pdu" { s with lastFc := some ⟨st, bs, stm⟩ },
+      ((e1 env).set "self.last_flow_control_frame" (.meth "pdu")) kv.1 = some kv.2 := by
+  intro kv hkv
+  simp only [rxAttrs, coreAttrs, List.mem_append, List.mem_cons, List.not_mem_nil, or_false] at hkv
+  rcases hkv with (hkv | hkv) | hkv
+  · rcases hkv with rfl | rfl | rfl | rfl | rfl | rfl | rfl | rfl | rfl | rfl | rfl | rfl | rfl | rfl | rfl <;>
+      simp only [e1, set_apply, String.reduceEq, ↓reduceIte]
+    · exact hR.rxState
+    · exact hR.rxFrameLen
+    · exact hR.lastSeq
+    · exact hR.rxBlockCnt
+    · exact hR.actualRxdl
+    · exact hR.rxBuf
+    · exact hR.pendingFc
+    · exact hR.tStart
+    · exact hR.tTimeout
+    · exact hR.blocksize
+    · exact hR.maxFrameSize
+    · exact hR.cfTimeout
+    · exact hR.errors
+    · exact hR.delivered
+    · exact hR.rxQueue
+  · cases hp : s.pendingFcStatus with
+    | none => simp [pfsAttrs, hp] at hkv
+    | some n =>
+      simp only [pfsAttrs, hp, List.mem_cons, List.not_mem_nil, or_false] at hkv
+      subst hkv
+      simp only [e1, set_apply, String.reduceEq, ↓reduceIte]
+      rw [hR.pfs, hp]; rfl
+  · simp only [fcAttrs, List.mem_cons, List.not_mem_nil, or_false, String.reduceAppend] at hkv
+    rcases hkv with rfl | rfl | rfl | rfl <;> simp only [e1, set_apply, String.reduceEq, ↓reduceIte]
+    · rw [hP.fs, hd]; rfl
+    · rw [hP.bs, hd]; rfl
+    · rw [hP.stmin, hd]; rfl
+
+
+/-- the name of the object in the mailbox after `_process_rx`: the received `pdu` if it is a Flow Control -/
+def _root_.Isotp.PyAgree.mailboxObj (s : State) (m : CanMsg) : String :=
+  match rxDecoded s m with
+  | some d => if isFc d.pdu then "pdu" else "fc"
+  | none => "fc"
+
+/-- what has to be shown of a run of `_process_rx` -/
+def Goal (s : State) (m : CanMsg) (env : Env) : Prop :=
+  ∃ env', execBlock (rxMethsOf s.now s.cfg.tCf s.addr.rx.rxPrefixSize m.data) env body
+      = .ok (.returned (.list [.py (.bool (s.processRx m).2.1), .py (.bool (s.processRx m).2.2)]) env') ∧
+    ∀ kv ∈ rxAttrs (mailboxObj s m) (s.processRx m).1, env' kv.1 = some kv.2
+
+theorem goal_of_rep {s1 : State} {itx fr : Bool} (hobj : mailboxObj s m = "fc") (hpr : s.processRx m = (s1, itx, fr))
+    (h : ∃ env', execBlock Mm env body = .ok (.returned (.list [.py (.bool itx), .py (.bool fr)]) env') ∧ Rep s1 env') :
+    Goal s m env := by
+  obtain ⟨env', h1, h2⟩ := h
+  unfold Goal
+  rw [hobj, hpr]
+  exact ⟨env', h1, h2.attrs⟩
+
+
+
+/-- the model on a Consecutive Frame in WAIT_CF, in the vocabulary of the source proof -/
+theorem processRx_cf_wait (s : State) (m : CanMsg) (sn : Nat) (dat : Bytes) (canDl rxDl : Nat)
+    (hdec : decode m.data s.addr.rx.rxPrefixSize = some ⟨.cf sn dat, canDl, rxDl⟩) (hst : s.rxState = .waitCf) :
+    s.processRx m =
+      if sn = (s.lastSeq + 1) % 16 then
+        if (some rxDl != s.actualRxdl && decide (rxDl < btrOf s)) = true then (s.error .ChangingInvalidRXDL, false, false)
+        else if s.rxFrameLen ≤ (s.rxBuf ++ dat.take (btrOf s)).length then
+          (((cf5St s sn dat).deliver (cf5St s sn dat).rxBuf).stopReceiving,
+            false || (((cf5St s sn dat).deliver (cf5St s sn dat).rxBuf).stopReceiving).pendingFc, true)
+        else if (decide (s.cfg.blocksize > 0) && decide ((s.rxBlockCnt + 1) % s.cfg.blocksize = 0)) = true then
+          ({ (cf6St s sn dat).requestFc 0 with timerCf := ((cf6St s sn dat).requestFc 0).timerCf.stop }, true, false)
+        else (cf6St s sn dat, false || (cf6St s sn dat).pendingFc, false)
+      else ((s.stopReceiving).error .WrongSequenceNumber,
+        false || ((s.stopReceiving).error .WrongSequenceNumber).pendingFc, false) := by
+  cases s
+  simp only at hst hdec
+  subst hst
+  unfold State.processRx
+  simp only [hdec]
+  rfl
+
+
+/-- the only place where a hypothesis on the state is needed: an in-sequence Consecutive Frame in WAIT_CF evaluates
+    `pdu.data[:bytes_to_receive]`, and `bytes_to_receive = rx_frame_length - len(rx_buffer)` must not be negative -/
+def _root_.Isotp.PyAgree.sliceOk (s : State) (m : CanMsg) : Prop :=
+  ∀ sn dat canDl rxDl, rxDecoded s m = some ⟨.cf sn dat, canDl, rxDl⟩ → s.rxState = .waitCf → sn = (s.lastSeq + 1) % 16 →
+    s.rxBuf.length ≤ s.rxFrameLen
+
+/-- `_process_rx` from any environment that represents `s` -/
+theorem process_rx_run (hR : Rep s env) (hC : Consts env) (hmsg : env "msg" = some (.meth "msg"))
+    (hP : ∀ d, rxDecoded s m = some d → PduCtx d env) (hinv : sliceOk s m) : Goal s m env := by
+  cases hdec : rxDecoded s m with
+  | none =>
+    have hdec' : decode m.data s.addr.rx.rxPrefixSize = none := hdec
+    have hpr : s.processRx m = ((s.error .InvalidCanData).stopReceiving, false, false) := by
+      simp only [State.processRx, hdec']
+    have hobj : mailboxObj s m = "fc" := by simp only [mailboxObj, hdec]
+    obtain ⟨env', h0, hR'⟩ := st0_reject m hR hmsg hdec
+    exact goal_of_rep m hobj hpr ⟨env', by rw [body_shape, block_ret _ _ _ _ _ _ h0], hR'⟩
+  | some d =>
+    have hP' := hP d hdec
+    obtain ⟨p, canDl, rxDl⟩ := d
+    have hdec' : decode m.data s.addr.rx.rxPrefixSize = some ⟨p, canDl, rxDl⟩ := hdec
+    have h0 : execStmt Mm env st0 = .ok (.next (e1 env)) := st0_accept m hmsg _ hdec
+    cases p with
+    | fc st bs stm =>
+      have hpr : s.processRx m = ({ s with lastFc := some ⟨st, bs, stm⟩ }, true, false) := by
+        simp only [State.processRx, hdec']
+      have hobj : mailboxObj s m = "pdu" := by simp only [mailboxObj, hdec, isFc, if_true]
+      have h1 := st1_fc (env := e1 env) (d := ⟨.fc st bs stm, canDl, rxDl⟩) Mm (fn_lookups _ _ _ _).2.2.2.2.2.2.2.1
+        (consts_e1 hC) (pduCtx_e1 hP') (by unfold e1; loc_tac) st bs stm rfl
+      unfold Goal
+      rw [hobj, hpr, body_shape, block_next _ _ _ _ _ h0, block_ret _ _ _ _ _ _ h1]
+      exact ⟨_, rfl, fc_attrs hR hP' st bs stm rfl⟩
+    | sf len dat esc =>
+      have hobj : mailboxObj s m = "fc" := by simp only [mailboxObj, hdec, isFc]; rfl
+      have h3 := st3_sf s.now s.cfg.tCf s.addr.rx.rxPrefixSize m.data (consts_e2 hC) (pduCtx_e2 hP') len dat esc rfl
+      by_cases hesc : (decide (canDl > 8) && !esc) = true
+      · have hpr : s.processRx m = (s.error .MissingEscapeSequence, false, false) := by
+          simp only [State.processRx, hdec', hesc, if_true]
+        rw [if_pos hesc] at h3
+        have hR2 : Rep s (e2 env) :=
+          (hR.setLocal "pdu" (.meth "pdu") (by decide)).setLocal "frame_complete" (pbool false) (by decide)
+        refine goal_of_rep m hobj hpr ⟨_, ?_, hR2.trig .MissingEscapeSequence⟩
+        rw [body_shape, block_next _ _ _ _ _ h0,
+          block_next _ _ _ _ _ (st1_other _ (consts_e1 hC) (pduCtx_e1 hP') (by simp [typeCode]))]
+        have h2 : execStmt Mm (e1 env) st2 = .ok (.next (e2 env)) := rfl
+        rw [block_next _ _ _ _ _ h2, block_ret _ _ _ _ _ _ h3]
+        rfl
+      · rw [if_neg hesc] at h3
+        have pre := head_run m hC hP' hmsg hdec (by simp [typeCode]) h3
+        have hl := headEnv_lookups env
+        cases hst : s.rxState with
+        | idle =>
+          have hpr : s.processRx m = ((idleSt s).deliver dat, false || ((idleSt s).deliver dat).pendingFc, true) := by
+            simp only [State.processRx, hdec', hesc, hst, idleSt]
+            rfl
+          exact goal_of_rep m hobj hpr (finish m (sm_sf_idle _ _ (rep_head hR) (consts_head hC) (pduCtx_head hP') len dat esc rfl
+            hst hl.2.2) pre)
+        | waitCf =>
+          have hpr : s.processRx m = (((s.deliver dat).stopReceiving).error .InterruptedWithSingleFrame,
+              false || (((s.deliver dat).stopReceiving).error .InterruptedWithSingleFrame).pendingFc, true) := by
+            simp only [State.processRx, hdec', hesc, hst]
+            rfl
+          exact goal_of_rep m hobj hpr (finish m (sm_sf_wait _ _ (rep_head hR) (consts_head hC) (pduCtx_head hP') len dat esc rfl
+            hst hl.2.2) pre)
+    | ff len dat esc =>
+      have hobj : mailboxObj s m = "fc" := by simp only [mailboxObj, hdec, isFc]; rfl
+      have h3 := st3_other Mm (consts_e2 hC) (pduCtx_e2 hP') (by simp [typeCode])
+      have pre := head_run m hC hP' hmsg hdec (by simp [typeCode]) h3
+      have hl := headEnv_lookups env
+      cases hst : s.rxState with
+      | idle =>
+        have hpr : s.processRx m = (((idleSt s).startReception len dat rxDl).1,
+            ((idleSt s).startReception len dat rxDl).2 || ((idleSt s).startReception len dat rxDl).1.pendingFc, false) := by
+          simp only [State.processRx, hdec', hst, idleSt]
+        exact goal_of_rep m hobj hpr (finish m (sm_ff_idle _ _ (rep_head hR) (consts_head hC) (pduCtx_head hP') hl.1 len dat esc
+          rfl hst hl.2.1 hl.2.2) pre)
+      | waitCf =>
+        have hpr : s.processRx m = ((s.startReception len dat rxDl).1.error .InterruptedWithFirstFrame,
+            (s.startReception len dat rxDl).2 ||
+              ((s.startReception len dat rxDl).1.error .InterruptedWithFirstFrame).pendingFc, false) := by
+          simp only [State.processRx, hdec', hst]
+        exact goal_of_rep m hobj hpr (finish m (sm_ff_wait _ _ (rep_head hR) (consts_head hC) (pduCtx_head hP') hl.1 len dat esc
+          rfl hst hl.2.1 hl.2.2) pre)
+    | cf sn dat =>
+      have hobj : mailboxObj s m = "fc" := by simp only [mailboxObj, hdec, isFc]; rfl
+      have h3 := st3_other Mm (consts_e2 hC) (pduCtx_e2 hP') (by simp [typeCode])
+      have pre := head_run m hC hP' hmsg hdec (by simp [typeCode]) h3
+      have hl := headEnv_lookups env
+      have hR0 := rep_head (env := env) hR
+      have hC0 := consts_head (env := env) hC
+      have hP0 := pduCtx_head (env := env) hP'
+      cases hst : s.rxState with
+      | idle =>
+        have hpr : s.processRx m = ((idleSt s).error .UnexpectedConsecutiveFrame,
+            false || ((idleSt s).error .UnexpectedConsecutiveFrame).pendingFc, false) := by
+          simp only [State.processRx, hdec', hst, idleSt]
+          rfl
+        exact goal_of_rep m hobj hpr (finish m (sm_cf_idle _ _ hR0 hC0 hP0 sn dat rfl hst hl.2.1 hl.2.2) pre)
+      | waitCf =>
+        have hpr := processRx_cf_wait s m sn dat canDl rxDl hdec' hst
+        by_cases hsn : sn = (s.lastSeq + 1) % 16
+        · rw [if_pos hsn] at hpr
+          have hinv' := hinv sn dat canDl rxDl hdec hst hsn
+          by_cases hchg : (some rxDl != s.actualRxdl && decide (rxDl < btrOf s)) = true
+          · rw [if_pos hchg] at hpr
+            obtain ⟨E', h5, hR'⟩ := sm_cf_wait_changing _ _ hR0 hC0 hP0 sn dat rfl hst hsn hinv' hchg
+            exact goal_of_rep m hobj hpr ⟨E', by rw [pre, block_ret _ _ _ _ _ _ h5], hR'⟩
+          · rw [if_neg hchg] at hpr
+            by_cases hcompl : s.rxFrameLen ≤ (s.rxBuf ++ dat.take (btrOf s)).length
+            · rw [if_pos hcompl] at hpr
+              exact goal_of_rep m hobj hpr (finish m (sm_cf_wait_complete _ _ hR0 hC0 hP0 sn dat rfl hst hsn hinv' hchg hcompl
+                hl.2.2) pre)
+            · rw [if_neg hcompl] at hpr
+              have hm := sm_cf_wait_more s.addr.rx.rxPrefixSize m.data hR0 hC0 hP0 sn dat rfl hst hsn hinv' hchg hcompl hl.2.1 hl.2.2
+              by_cases hblk : (decide (s.cfg.blocksize > 0) && decide ((s.rxBlockCnt + 1) % s.cfg.blocksize = 0)) = true
+              · rw [if_pos hblk] at hpr hm
+                exact goal_of_rep m hobj hpr (finish m hm pre)
+              · rw [if_neg hblk] at hpr hm
+                exact goal_of_rep m hobj hpr (finish m hm pre)
+        · rw [if_neg hsn] at hpr
+          exact goal_of_rep m hobj hpr (finish m (sm_cf_wait_bad _ _ hR0 hC0 hP0 sn dat rfl hst hsn hl.2.1 hl.2.2) pre)
+
+
+end head
+
 end Rx
+open Rx
+
+/-! ## Main theorems -/
+
+/-- the invariant of the receive side that `_process_rx` relies on: while waiting for Consecutive Frames the buffer is not
+    longer than the announced frame length.  It is the first half of `Isotp.RxJust` (Proofs/Safe.lean), which holds initially and
+    is preserved by `processRx` / `checkTimeoutsRx` (`RxJust.init`, `RxJust.processRx`, `RxJust.checkTimeoutsRx`). -/
+def RxBufOk (s : State) : Prop := s.rxState = .waitCf → s.rxBuf.length ≤ s.rxFrameLen
+
+theorem sliceOk_of_inv {s : State} (h : RxBufOk s) (m : CanMsg) : sliceOk s m := fun _ _ _ _ _ hst _ => h hst
+
+/-- **`_process_rx` = `State.processRx`** (precise form) -/
+theorem process_rx_agrees' (s : State) (m : CanMsg) (hinv : sliceOk s m) :
+    ∃ env', runFn (rxMeths s m) (rxEnvIn s m) Src.TransportLayerLogic_p_process_rx
+        = .ok (.list [.py (.bool (s.processRx m).2.1), .py (.bool (s.processRx m).2.2)], env') ∧
+      ∀ kv ∈ rxAttrs (mailboxObj s m) (s.processRx m).1, env' kv.1 = some kv.2 := by
+  obtain ⟨env', h1, h2⟩ := process_rx_run m (rep_rxEnvIn s m) (consts_rxEnvIn s m) rfl (pduCtx_rxEnvIn s m) hinv
+  refine ⟨env', ?_, h2⟩
+  have h1' : execBlock (rxMeths s m) (rxEnvIn s m) Src.TransportLayerLogic_p_process_rx = _ := h1
+  simp only [runFn, h1']
+
+/-- **`_process_rx` = `State.processRx`**, for every state that satisfies `RxBufOk` and every frame: the interpreted source returns
+    the report `(immediate_tx_required, frame_received)` of the model and leaves the object in the model's state (all
+    receive-side attributes, the errors and deliveries appended to the history keys, the mailbox). -/
+theorem process_rx_agrees (s : State) (m : CanMsg) (hinv : RxBufOk s) :
+    ∃ env', runFn (rxMeths s m) (rxEnvIn s m) Src.TransportLayerLogic_p_process_rx
+        = .ok (.list [.py (.bool (s.processRx m).2.1), .py (.bool (s.processRx m).2.2)], env') ∧
+      ∀ kv ∈ rxAttrs (mailboxObj s m) (s.processRx m).1, env' kv.1 = some kv.2 :=
+  process_rx_agrees' s m (sliceOk_of_inv hinv m)
+
+/-- the history keys after `_process_rx`: exactly the model's error events and deliveries -/
+theorem process_rx_history (s : State) (m : CanMsg) (hinv : sliceOk s m) :
+    ∃ env', (runFn (rxMeths s m) (rxEnvIn s m) Src.TransportLayerLogic_p_process_rx).map (·.2) = .ok env' ∧
+      env' "#errors" = some (.list (errsOf (s.processRx m).1.log)) ∧
+      env' "#delivered" = some (.list (encodePayloads (deliveredOf (s.processRx m).1.log))) ∧
+      env' "#rx_queue" = some (.list (encodePayloads (s.processRx m).1.rxQueue)) := by
+  obtain ⟨env', h1, h2⟩ := process_rx_agrees' s m hinv
+  refine ⟨env', by rw [h1]; rfl, ?_, ?_, ?_⟩
+  · exact h2 ("#errors", _) (by simp [rxAttrs, coreAttrs])
+  · exact h2 ("#delivered", _) (by simp [rxAttrs, coreAttrs])
+  · exact h2 ("#rx_queue", _) (by simp [rxAttrs, coreAttrs])
+
+/-- a received Flow Control ends in the mailbox (in EVERY state): `self.last_flow_control_frame` is the object `pdu`, whose three
+    fields are the model's `lastFc` -/
+theorem process_rx_mailbox (s : State) (m : CanMsg) (st bs stm canDl rxDl : Nat)
+    (hd : decode m.data s.addr.rx.rxPrefixSize = some ⟨.fc st bs stm, canDl, rxDl⟩) :
+    (s.processRx m).1.lastFc = some ⟨st, bs, stm⟩ ∧
+    ∃ env', runFn (rxMeths s m) (rxEnvIn s m) Src.TransportLayerLogic_p_process_rx
+        = .ok (.list [.py (.bool true), .py (.bool false)], env') ∧
+      env' "self.last_flow_control_frame" = some (.meth "pdu") ∧ env' "pdu.flow_status" = some (pint st) ∧
+      env' "pdu.blocksize" = some (pint bs) ∧ env' "pdu.stmin" = some (pint stm) := by
+  have hd' : rxDecoded s m = some ⟨.fc st bs stm, canDl, rxDl⟩ := hd
+  have hpr : s.processRx m = ({ s with lastFc := some ⟨st, bs, stm⟩ }, true, false) := by
+    simp only [State.processRx, hd]
+  have hobj : mailboxObj s m = "pdu" := by simp only [mailboxObj, hd', isFc, if_true]
+  have hok : sliceOk s m := by
+    intro sn dat c r h
+    rw [hd'] at h
+    cases h
+  obtain ⟨env', h1, h2⟩ := process_rx_agrees' s m hok
+  rw [hpr] at h1 h2
+  rw [hobj] at h2
+  refine ⟨by rw [hpr], env', h1, ?_, ?_, ?_, ?_⟩
+  · exact h2 ("self.last_flow_control_frame", _) (by simp [rxAttrs, fcAttrs])
+  · exact h2 ("pdu.flow_status", _) (by simp [rxAttrs, fcAttrs])
+  · exact h2 ("pdu.blocksize", _) (by simp [rxAttrs, fcAttrs])
+  · exact h2 ("pdu.stmin", _) (by simp [rxAttrs, fcAttrs])
+
+/-! ### `_check_timeouts_rx` -/
+
+theorem envTimer_rep {s : State} {env : Env} (hR : Rep s env) : envTimer env = some s.timerCf := by
+  cases hs : s.timerCf.start <;>
+    simp [envTimer, hR.tStart, hR.tTimeout, hs, optPV] <;>
+    (cases h : s.timerCf; simp_all)
+
+/-- `_check_timeouts_rx` from any environment that represents `s` -/
+theorem check_timeouts_rx_run (tCf start : Nat) (data : Bytes) {s : State} {env : Env} (hR : Rep s env) :
+    ∃ env', runFn (rxMethsOf s.now tCf start data) env Src.TransportLayerLogic_p_check_timeouts_rx = .ok (pnone, env') ∧
+      Rep s.checkTimeoutsRx env' := by
+  have ht := envTimer_rep hR
+  simp only [runFn, Src.TransportLayerLogic_p_check_timeouts_rx, State.checkTimeoutsRx]
+  cases hto : s.timerCf.timedOut s.now
+  · rx_eval [timedOutFn, ht, hto]
+    exact ⟨_, rfl, hR⟩
+  · rx_eval [timedOutFn, ht, hto]
+    exact ⟨_, rfl, (hR.trig .ConsecutiveFrameTimeout).stopRecv⟩
+
+/-- **`_check_timeouts_rx` = `State.checkTimeoutsRx`**, for every state -/
+theorem check_timeouts_rx_agrees (s : State) (m : CanMsg) :
+    ∃ env', runFn (rxMeths s m) (rxEnv s) Src.TransportLayerLogic_p_check_timeouts_rx = .ok (pnone, env') ∧
+      ∀ kv ∈ rxAttrs "fc" s.checkTimeoutsRx, env' kv.1 = some kv.2 := by
+  obtain ⟨env', h1, h2⟩ := check_timeouts_rx_run s.cfg.tCf s.addr.rx.rxPrefixSize m.data (rep_rxEnv s)
+  exact ⟨env', h1, h2.attrs⟩
+
+
+/-! ### 4c. the helper methods: their own source against the model (from ANY environment that represents `s`) -/
+
+section helper_agreement
+variable (tCf start : Nat) (data : Bytes) {s : State} {env : Env}
+
+theorem Rx.Rep.of_setLocal (k : String) (v : PV) (hk : k ∉ repKeys) (h : Rep s (env.set k v)) : Rep s env := by
+  simp only [repKeys, List.mem_cons, List.not_mem_nil, or_false, not_or] at hk
+  obtain ⟨h1, h2, h3, h4, h5, h6, h7, h8, h9, h10, h11, h12, h13, h14, h15, h16, h17, h18, h19, h20⟩ := hk
+  have e : ∀ k', k' ≠ k → (env.set k v) k' = env k' := fun k' hk' => by simp only [set_apply, hk', if_false]
+  constructor
+  · rw [← e _ (Ne.symm h1)]; exact h.rxState
+  · rw [← e _ (Ne.symm h2)]; exact h.rxFrameLen
+  · rw [← e _ (Ne.symm h3)]; exact h.lastSeq
+  · rw [← e _ (Ne.symm h4)]; exact h.rxBlockCnt
+  · rw [← e _ (Ne.symm h5)]; exact h.actualRxdl
+  · rw [← e _ (Ne.symm h6)]; exact h.rxBuf
+  · rw [← e _ (Ne.symm h7)]; exact h.pendingFc
+  · rw [← e _ (Ne.symm h8)]; exact h.pfs
+  · rw [← e _ (Ne.symm h9)]; exact h.tStart
+  · rw [← e _ (Ne.symm h10)]; exact h.tTimeout
+  · rw [← e _ (Ne.symm h11)]; exact h.blocksize
+  · rw [← e _ (Ne.symm h12)]; exact h.maxFrameSize
+  · rw [← e _ (Ne.symm h13)]; exact h.cfTimeout
+  · rw [← e _ (Ne.symm h14)]; exact h.errors
+  · rw [← e _ (Ne.symm h15)]; exact h.delivered
+  · rw [← e _ (Ne.symm h16)]; exact h.rxQueue
+  · rw [← e _ (Ne.symm h17)]; exact h.mb
+  · intro f hf; rw [← e _ (Ne.symm h18)]; exact h.fcS f hf
+  · intro f hf; rw [← e _ (Ne.symm h19)]; exact h.fcB f hf
+  · intro f hf; rw [← e _ (Ne.symm h20)]; exact h.fcM f hf
+
+/-- `_empty_rx_buffer` -/
+theorem rx_empty_rx_buffer_agrees (now : Nat) (hR : Rep s env) :
+    ∃ env', runFn (rxMethsOf now tCf start data) env Src.TransportLayerLogic_p_empty_rx_buffer = .ok (pnone, env') ∧
+      Rep { s with rxBuf := [] } env' :=
+  ⟨_, empty_rx_buffer_src now tCf start data env, hR.emptyBuf⟩
+
+/-- `_stop_sending_flow_control` -/
+theorem rx_stop_sending_flow_control_agrees (now : Nat) (hR : Rep s env) :
+    ∃ env', runFn (rxMethsOf now tCf start data) env Src.TransportLayerLogic_p_stop_sending_flow_control = .ok (pnone, env') ∧
+      Rep { s with pendingFc := false, lastFc := none } env' :=
+  ⟨_, stop_sending_flow_control_src now tCf start data env, hR.stopFc⟩
+
+/-- `_start_rx_cf_timer` = `State.startRxCfTimer` (the timeout installed is the converted parameter `s.cfg.tCf`, DESIGN 3.1) -/
+theorem rx_start_rx_cf_timer_agrees (hR : Rep s env) :
+    ∃ env', runFn (rxMethsOf s.now s.cfg.tCf start data) env Src.TransportLayerLogic_p_start_rx_cf_timer = .ok (pnone, env') ∧
+      Rep s.startRxCfTimer env' :=
+  ⟨_, start_rx_cf_timer_src s.now s.cfg.tCf start data env _ hR.cfTimeout, hR.startCf⟩
+
+/-- `_append_rx_data(d)` -/
+theorem rx_append_rx_data_agrees (now : Nat) (hR : Rep s env) (d : Bytes) :
+    ∃ env', runFn (rxMethsOf now tCf start data) (env.set "data" (.bytes d)) Src.TransportLayerLogic_p_append_rx_data
+        = .ok (pnone, env') ∧ Rep { s with rxBuf := s.rxBuf ++ d } env' :=
+  ⟨_, (append_rx_data_src now tCf start data env d s.rxBuf hR.rxBuf).1,
+    ((hR.setLocal "data" (.bytes d) (by decide)).extend d)⟩
+
+/-- `_request_tx_flowcontrol(st)` = `State.requestFc` -/
+theorem rx_request_tx_flowcontrol_agrees (now : Nat) (hR : Rep s env) (st : Nat) :
+    ∃ env', runFn (rxMethsOf now tCf start data) (env.set "status" (pint st)) Src.TransportLayerLogic_p_request_tx_flowcontrol
+        = .ok (pnone, env') ∧ Rep (s.requestFc st) env' :=
+  ⟨_, (request_tx_flowcontrol_src now tCf start data env (pint st)).1, (hR.setLocal "status" (pint st) (by decide)).reqFc st⟩
+
+/-- `_stop_receiving` = `State.stopReceiving` -/
+theorem rx_stop_receiving_agrees (now : Nat) (hR : Rep s env) (hC : Consts env) :
+    ∃ env', runFn (rxMethsOf now tCf start data) env Src.TransportLayerLogic_p_stop_receiving = .ok (pnone, env') ∧
+      Rep s.stopReceiving env' :=
+  ⟨_, stop_receiving_src now tCf start data env hC.idle, hR.stopRecv⟩
+
+/-- `_start_reception_after_first_frame_if_valid(pdu)` = `State.startReception`: the state AND the Boolean result -/
+theorem rx_start_reception_agrees (hR : Rep s env) (hC : Consts env) (len rxDl : Nat) (dat : Bytes)
+    (hl : env "pdu.length" = some (pint len)) (hr : env "pdu.rx_dl" = some (pint rxDl))
+    (hd : env "pdu.data" = some (.bytes dat)) :
+    ∃ env', runFn (rxMethsOf s.now s.cfg.tCf start data) env
+        Src.TransportLayerLogic_p_start_reception_after_first_frame_if_valid
+        = .ok (pbool (s.startReception len dat rxDl).2, env') ∧ Rep (s.startReception len dat rxDl).1 env' := by
+  obtain ⟨envR, b, h1, h2⟩ := start_reception_src s.now s.cfg.tCf start data env hC len rxDl s.cfg.maxFrameSize dat hl hr hd
+    hR.maxFrameSize
+  rw [startRecProc_eq s.now s.cfg.tCf env _ len rxDl s.cfg.maxFrameSize dat hl hr hd hR.maxFrameSize] at h2
+  have h3 : startRecEnv s.now s.cfg.tCf len rxDl dat s.cfg.maxFrameSize env = envR.set "started" (pbool b) := by
+    injection h2
+  have hs := Rep.startRec hR len rxDl dat
+  rw [h3] at hs
+  have hb : b = (s.startReception len dat rxDl).2 := by
+    have := hs.2
+    simp only [set_apply, if_true] at this
+    injection this with this
+    injection this with this
+    injection this with this
+    injection this
+  subst hb
+  exact ⟨envR, h1, Rep.of_setLocal "started" _ (by decide) hs.1⟩
+
+end helper_agreement
+
+/-! ### 2b / 3b. the primitive entries against the sources they stand for -/
+
+/-- `PDU(msg, start_of_data=start)` as given to `_process_rx` IS the interpreted `PDU.__init__`: `pdu` when the constructor
+    returns, its exception (always `ValueError`) when it raises -/
+theorem pdu_entry_link (now tCf start : Nat) (data : Bytes) (v : PV) (k : Nat) (env : Env) :
+    (rxMethsOf now tCf start data).fn "PDU#start_of_data" [v, pint k] env =
+      match runFn noMeths (pduEnv data k) Src.PDU_init with
+      | .ok _ => .ok (.meth "pdu")
+      | .error e => .error e := by
+  rw [(fn_lookups now tCf start data).1, pduFn_eq]
+  cases h : decode data k with
+  | none => rw [pdu_init_rejects data k h]
+  | some d =>
+    obtain ⟨env', hrun, -⟩ := pdu_init_accepts data k d h
+    rw [hrun]
+
+/-- the name under which `_process_rx` sees an attribute of the PDU object -/
+def pduKey : String → String
+  | "self.can_dl" => "pdu.can_dl" | "self.rx_dl" => "pdu.rx_dl" | "self.type" => "pdu.type"
+  | "self.length" => "pdu.length" | "self.data" => "pdu.data" | "self.escape_sequence" => "pdu.escape_sequence"
+  | "self.seqnum" => "pdu.seqnum" | "self.flow_status" => "pdu.flow_status" | "self.blocksize" => "pdu.blocksize"
+  | "self.stmin" => "pdu.stmin" | k => k
+
+/-- the `pdu.*` bindings of `rxEnvIn` are the attributes `pdu_init_accepts` proves the constructed object has -/
+theorem pduView_fields (d : Decoded) (base : Env) : ∀ kv ∈ fieldsOf d, pduView (some d) base (pduKey kv.1) = some kv.2 := by
+  obtain ⟨p, c, r⟩ := d
+  intro kv hkv
+  cases p <;>
+    simp only [fieldsOf, pduFields, List.cons_append, List.nil_append, List.mem_cons, List.not_mem_nil, or_false] at hkv <;>
+    (rcases hkv with rfl | rfl | rfl | rfl | rfl | rfl) <;> rfl
+
+/-- `self.timer_rx_cf.is_timed_out()` as given to `_check_timeouts_rx` IS the interpreted `Timer.is_timed_out` on the timer
+    object read back from the environment (`timer_is_timed_out_linked`, MiscTimer.lean) -/
+theorem is_timed_out_link (now : Nat) (env : Env) (t : Timer) (h : envTimer env = some t) :
+    timedOutFn now env = retM (timerMethsSrc now) (timerEnv t) Src.Timer_is_timed_out := by
+  rw [timer_is_timed_out_linked]; simp only [timedOutFn, h]
+
+/-- `self.timer_rx_cf.stop()` / `.start()`: the entries write to `start_time` what `Timer.stop` / `Timer.start` write
+    (`timer_stop_start_time`, `timer_start_none_start_time`, MiscTimer.lean) -/
+theorem timer_entries_link (M : Meths) (t : Timer) (now tCf : Nat) (hM : ClockIs M now) (env : Env) :
+    (timerStopEnv env "self.timer_rx_cf.start_time" = some pnone ∧
+      (envM M (timerEnv t) Src.Timer_stop).map (· "self.start_time") = .ok (some pnone)) ∧
+    (timerStartEnv now tCf env "self.timer_rx_cf.start_time" = some (pint now) ∧
+      (envM M (startEnv t pnone) Src.Timer_start).map (· "self.start_time") = .ok (some (pint now))) :=
+  ⟨⟨rfl, timer_stop_start_time M t⟩, ⟨rfl, timer_start_none_start_time M t now hM⟩⟩
+
+
+/-! ### what `RxBufOk` excludes -/
+
+theorem natIdx_neg (i : Int) (h : i < 0) : natIdx (pint i) = .error (.unsupported "negative index") := by
+  simp [natIdx, asInt, Sc.isInt, Sc.intVal, PyVal.isInt, PyVal.intVal, h]
+
+theorem block_err (M : Meths) (env : Env) (e : PErr) (s : PStmt) (r : PBlock) (h : execStmt M env s = .error e) :
+    execBlock M env (.cons s r) = .error e := by
+  simp only [execBlock, h, error_bind]
+
+/-- In a state where the buffer is LONGER than the announced frame length (excluded by `RxBufOk`; unreachable), an in-sequence
+    Consecutive Frame makes `bytes_to_receive` negative.  The source then evaluates `pdu.data[:bytes_to_receive]` with a negative
+    bound: Python drops that many bytes from the END of the data, the interpreter does not model negative slice bounds
+    (`unsupported`), and the model's `data.take (rxFrameLen - rxBuf.length)` takes nothing.  So without the invariant the two
+    sides are not comparable on this input. -/
+theorem process_rx_negative_slice (s : State) (m : CanMsg) (sn : Nat) (dat : Bytes) (canDl rxDl : Nat)
+    (hdec : decode m.data s.addr.rx.rxPrefixSize = some ⟨.cf sn dat, canDl, rxDl⟩) (hst : s.rxState = .waitCf)
+    (hsn : sn = (s.lastSeq + 1) % 16) (hneg : s.rxFrameLen < s.rxBuf.length) :
+    runFn (rxMeths s m) (rxEnvIn s m) Src.TransportLayerLogic_p_process_rx = .error (.unsupported "negative index") := by
+  have hdec' : rxDecoded s m = some ⟨.cf sn dat, canDl, rxDl⟩ := hdec
+  have hP' := pduCtx_rxEnvIn s m _ hdec'
+  have hC := consts_rxEnvIn s m
+  have hR := rep_rxEnvIn s m
+  have h3 := st3_other (rxMethsOf s.now s.cfg.tCf s.addr.rx.rxPrefixSize m.data) (consts_e2 hC) (pduCtx_e2 hP')
+    (by simp [typeCode])
+  have pre := head_run m hC hP' rfl hdec' (by simp [typeCode]) h3
+  have hR0 := rep_head (env := rxEnvIn s m) hR
+  have hC0 := consts_head (env := rxEnvIn s m) hC
+  have hP0 := pduCtx_head (env := rxEnvIn s m) hP'
+  have h5 : execStmt (rxMethsOf s.now s.cfg.tCf s.addr.rx.rxPrefixSize m.data) (headEnv (rxEnvIn s m)) st5
+      = .error (.unsupported "negative index") := by
+    rw [cfw_prefix _ _ hR0 hC0 hP0 sn dat rfl hst, if_pos hsn, cfOk_shape, chgStmt_shape]
+    have hlt : decide ((rxDl : Int) < (s.rxFrameLen : Int) - (s.rxBuf.length : Int)) = false := by
+      simp only [decide_eq_false_iff_not]; omega
+    have hdat0 : headEnv (rxEnvIn s m) "pdu.data" = some (.bytes dat) := hP0.data
+    have hsn0 : headEnv (rxEnvIn s m) "pdu.seqnum" = some (pint sn) := hP0.seqnum
+    have hneg' : (s.rxFrameLen : Int) - (s.rxBuf.length : Int) < 0 := by omega
+    cases hA : (s.actualRxdl == some rxDl) <;>
+      rx_eval [seqEnv, hR0.rxFrameLen, hR0.rxBuf, evalBinop_sub, hP0.rxDl, hR0.actualRxdl, pvEq_pint_optPV, hA, Bool.not_false,
+        Bool.not_true, cmp_lt_pint, hlt, hdat0, hsn0, natIdx_neg _ hneg']
+  have e : execBlock (rxMeths s m) (rxEnvIn s m) Src.TransportLayerLogic_p_process_rx = .error (.unsupported "negative index") := by
+    show execBlock (rxMethsOf s.now s.cfg.tCf s.addr.rx.rxPrefixSize m.data) (rxEnvIn s m) body = _
+    rw [pre, block_err _ _ _ _ _ h5]
+  simp only [runFn, e]
+
+
+/-- non-vacuity of `process_rx_negative_slice`, and what the model does there: buffer `[1,2,3]` for an announced length of 2, then
+    the in-sequence Consecutive Frame `21 AA BB`.  The model takes nothing from the frame and delivers `[1,2,3]`; Python's
+    `data[:-1]` would append `AA` and deliver `[1,2,3,AA]`. -/
+def sliceWitnessState : State :=
+  { cfg := {}, addr := default, rxState := .waitCf, rxBuf := [1, 2, 3], rxFrameLen := 2 }
+def sliceWitnessMsg : CanMsg := { id := 0, ext := false, data := [0x21, 0xAA, 0xBB] }
+
+theorem negative_slice_witness :
+    runFn (rxMeths sliceWitnessState sliceWitnessMsg) (rxEnvIn sliceWitnessState sliceWitnessMsg)
+        Src.TransportLayerLogic_p_process_rx = .error (.unsupported "negative index") ∧
+    (sliceWitnessState.processRx sliceWitnessMsg).1.rxQueue = [[1, 2, 3]] ∧
+    ¬ RxBufOk sliceWitnessState := by
+  refine ⟨process_rx_negative_slice _ _ 1 [0xAA, 0xBB] 3 8 (by decide) rfl (by decide) (by decide), by decide, ?_⟩
+  intro h
+  exact absurd (h rfl) (by decide)
+
+/-! ### non-vacuity of the hypotheses -/
+example (c : Cfg) (a : Addr) : RxBufOk (State.init c a) := by intro h; cases h
+example : RxBufOk { cfg := {}, addr := default, rxState := .waitCf, rxBuf := [1, 2, 3], rxFrameLen := 20 } := by
+  intro _; decide
+example (s : State) (m : CanMsg) (h : s.rxState = .idle) : sliceOk s m := by
+  intro _ _ _ _ _ hst; rw [h] at hst; cases hst
 
 end Isotp.PyAgree
+
+#print axioms Isotp.PyAgree.process_rx_agrees
+#print axioms Isotp.PyAgree.process_rx_agrees'
+#print axioms Isotp.PyAgree.process_rx_history
+#print axioms Isotp.PyAgree.process_rx_mailbox
+#print axioms Isotp.PyAgree.check_timeouts_rx_agrees
+#print axioms Isotp.PyAgree.check_timeouts_rx_run
+#print axioms Isotp.PyAgree.Rx.process_rx_run
+#print axioms Isotp.PyAgree.rx_empty_rx_buffer_agrees
+#print axioms Isotp.PyAgree.rx_stop_sending_flow_control_agrees
+#print axioms Isotp.PyAgree.rx_start_rx_cf_timer_agrees
+#print axioms Isotp.PyAgree.rx_append_rx_data_agrees
+#print axioms Isotp.PyAgree.rx_request_tx_flowcontrol_agrees
+#print axioms Isotp.PyAgree.rx_stop_receiving_agrees
+#print axioms Isotp.PyAgree.rx_start_reception_agrees
+#print axioms Isotp.PyAgree.Rx.empty_rx_buffer_src
+#print axioms Isotp.PyAgree.Rx.stop_sending_flow_control_src
+#print axioms Isotp.PyAgree.Rx.start_rx_cf_timer_src
+#print axioms Isotp.PyAgree.Rx.append_rx_data_src
+#print axioms Isotp.PyAgree.Rx.request_tx_flowcontrol_src
+#print axioms Isotp.PyAgree.Rx.stop_receiving_src
+#print axioms Isotp.PyAgree.Rx.start_reception_src
+#print axioms Isotp.PyAgree.pdu_entry_link
+#print axioms Isotp.PyAgree.pduView_fields
+#print axioms Isotp.PyAgree.is_timed_out_link
+#print axioms Isotp.PyAgree.timer_entries_link
+#print axioms Isotp.PyAgree.process_rx_negative_slice
+#print axioms Isotp.PyAgree.negative_slice_witness
+#print axioms Isotp.PyAgree.encodePayloads_append
+#print axioms Isotp.PyAgree.encodePayloads_injective
